@@ -11,7 +11,9 @@ export CARGO_NET_OFFLINE=true CARGO_TERM_COLOR=never
 prep() {
   mkdir -p $S/repo $S/harness $S/out/evidence $S/out/replays
   rsync -a --delete --exclude target --exclude .git /repo/ $S/repo/
-  rsync -a --delete --exclude target /verif/harness/ $S/harness/
+  # the committed harness (not the working tree, which may be mid-edit)
+  rm -rf $S/harness.new && mkdir -p $S/harness.new && git -C /verif archive HEAD harness | tar -x -C $S/harness.new
+  rsync -a --delete --checksum $S/harness.new/harness/ $S/harness/ && rm -rf $S/harness.new
   sed -i "s#path = \"/repo\"#path = \"$S/repo\"#" $S/harness/Cargo.toml
   sed -i "s#target-dir = \"/verif/target\"#target-dir = \"$S/target\"#" $S/harness/.cargo/config.toml
   cp /verif/known_findings.jsonl $S/out/ 2>/dev/null
